@@ -9,9 +9,12 @@ import (
 	"fmt"
 	"sort"
 	"strings"
+	"sync"
+	"time"
 
 	commonmodels "github.com/lindb/common/models"
 	"github.com/lindb/common/pkg/encoding"
+	"github.com/lindb/roaring"
 
 	"github.com/lindb/lindb/aggregation"
 	"github.com/lindb/lindb/aggregation/function"
@@ -193,6 +196,29 @@ func wireCopy(s *stmt.Query) (*stmt.Query, error) {
 type metaDB struct {
 	index.MetricMetaDatabase
 	schema *metric.Schema // nil: metric unknown on this node
+	// the node's tag value dictionary: tag key id -> tag value id -> value (what the leaf's
+	// collectGroupByTagValues asks for); failKey != 0: the lookup for that tag key id fails
+	dict    func(keyID tag.KeyID) map[uint32]string
+	failKey tag.KeyID
+}
+
+// CollectTagValues as index.metricMetaDatabase does: fills tagValues for the ids it knows.
+func (m *metaDB) CollectTagValues(keyID tag.KeyID, ids *roaring.Bitmap, tagValues map[uint32]string) error {
+	if m.failKey != 0 && keyID == m.failKey {
+		return fmt.Errorf("collect tag values of key %d: dictionary unavailable", keyID)
+	}
+	if m.dict == nil {
+		return nil
+	}
+	d := m.dict(keyID)
+	it := ids.Iterator()
+	for it.HasNext() {
+		id := it.Next()
+		if v, ok := d[id]; ok {
+			tagValues[id] = v
+		}
+	}
+	return nil
 }
 
 func (m *metaDB) GetMetricID(_, name string) (metric.ID, error) {
@@ -332,7 +358,8 @@ func RunLeafPlan(w *World, q *QueryDef, leaf *LeafDef, receivers []string) ([]*p
 			schema.TagKeys = append(schema.TagKeys, tag.Meta{Key: k, ID: tag.KeyID(10 + i)})
 		}
 	}
-	db := &stubDB{meta: &metaDB{schema: schema}}
+	mdb := &metaDB{schema: schema}
+	db := &stubDB{meta: mdb}
 	fct := &capFactory{streams: map[string]*capStream{}}
 	taskCtx := flow.NewTaskContextWithTimeout(context.Background(), leafTimeout)
 	req := &protoCommonV1.TaskRequest{RequestID: "r1", RequestType: protoCommonV1.RequestType_Data}
@@ -389,6 +416,15 @@ func RunLeafPlan(w *World, q *QueryDef, leaf *LeafDef, receivers []string) ([]*p
 		fieldIdx[string(fm.Name)] = i
 	}
 	grouped := false
+	// the node's dictionary, as the real collectGroupByTagValues reads it through MetaDB().CollectTagValues
+	mdb.dict = func(keyID tag.KeyID) map[uint32]string {
+		for gi, g := range q.GroupBy {
+			if tag.KeyID(10+g) == keyID {
+				return rev[gi]
+			}
+		}
+		return nil
+	}
 	// what storage hands to the down-sampling of one series: field index -> slot -> value. A series
 	// takes part in the query on this node iff it has a point of a selected field in the family
 	// (possibly outside the queried slot range: then its aggregator exists but stays empty).
@@ -423,8 +459,22 @@ func RunLeafPlan(w *World, q *QueryDef, leaf *LeafDef, receivers []string) ([]*p
 					shard = append(shard, si)
 				}
 			}
+			// the leaf pipeline's grouping tasks, as query/stage does: every local shard's scan stage
+			// forks one when it is created and completes it when it is done (also when the shard holds
+			// nothing); a shard with series forks a grouping stage before the scan stage completes.
+			// The LAST completion runs the real collectGroupByTagValues against the node's dictionary.
+			if pass == 1 {
+				lctx.GroupingCtx.ForkGroupingTask()
+			}
 			if len(shard) == 0 {
+				if pass == 1 {
+					lctx.GroupingCtx.CompleteGroupingTask()
+				}
 				continue // storage finds no series of the metric in this shard
+			}
+			if pass == 1 {
+				lctx.GroupingCtx.ForkGroupingTask()   // NewGroupingStage
+				lctx.GroupingCtx.CompleteGroupingTask() // shardScanStage.Complete
 			}
 			shardCtx := flow.NewShardExecuteContext(sctx)
 			dl := &flow.DataLoadContext{ShardExecuteCtx: shardCtx, IsMultiField: len(sctx.Fields) > 1, IsGrouping: st.HasGroupBy()}
@@ -454,6 +504,11 @@ func RunLeafPlan(w *World, q *QueryDef, leaf *LeafDef, receivers []string) ([]*p
 					dl.GroupingSeriesAggRefs[li] = idx
 				}
 			}
+			if pass == 1 {
+				// groupingStage.Complete: the groups of this shard are built (their tag value ids
+				// collected); the data load stages that follow fork no grouping task
+				lctx.GroupingCtx.CompleteGroupingTask()
+			}
 			for li, si := range shard {
 				// per series, per field: one GetAggregator(familyTime) + DownSampling, as dataLoad.Execute does
 				perField := seriesData(si)
@@ -479,11 +534,58 @@ func RunLeafPlan(w *World, q *QueryDef, leaf *LeafDef, receivers []string) ([]*p
 			}
 		}
 	}
-	if st.HasGroupBy() && grouped {
-		lctx.GroupingCtx.VerifSetGroupingTagValues(rev)
-	}
+	_ = grouped
+	t0 := time.Now()
 	lctx.SendResponse(nil)
+	noteLeafWait(leaf.Name, time.Since(t0), leafTimeout, fmt.Sprintf("level 1, group by %v, %d shards of the leaf with data (grouped=%v)", q.GroupBy, len(leaf.Shards), grouped))
 	return collect(), recorded, plan, nil
+}
+
+// leafHang records a leaf whose answer took (nearly) its task context's whole deadline: on the
+// unchanged tree a leaf answers in microseconds whatever it holds, so a leaf that waits for its
+// deadline waits for something that never happens (a channel nobody closes, a task never forked).
+// Reported as oracle failure `leaf-blocks-until-deadline` (once per case); the case loop stops the
+// run after `max_hangs` such cases, so a tree on which every such leaf hangs ends in seconds.
+var leafHang struct {
+	sync.Mutex
+	n      int
+	desc   string
+	report func(string)
+}
+
+func noteLeafWait(name string, took, deadline time.Duration, what string) {
+	if took < deadline*3/4 {
+		return
+	}
+	leafHang.Lock()
+	defer leafHang.Unlock()
+	leafHang.n++
+	if leafHang.desc == "" {
+		leafHang.desc = fmt.Sprintf("leaf %s answered after %s (task deadline %s): %s", name, took.Round(10*time.Millisecond), deadline, what)
+		if leafHang.report != nil {
+			leafHang.report(leafHang.desc) // first of the case: reported at once, before the answer comparison
+		}
+	}
+}
+
+// noteTimeoutCase counts a case in which a real search / context sat out its deadline although
+// every target had answered (already reported under its own oracle key).
+func noteTimeoutCase() {
+	leafHang.Lock()
+	leafHang.n++
+	if leafHang.desc == "" {
+		leafHang.desc = "-"
+	}
+	leafHang.Unlock()
+}
+
+// takeLeafHang returns and clears the record.
+func takeLeafHang() (int, string) {
+	leafHang.Lock()
+	defer leafHang.Unlock()
+	n, d := leafHang.n, leafHang.desc
+	leafHang.n, leafHang.desc = 0, ""
+	return n, d
 }
 
 // recordIterator renders one grouped iterator as `t:` / `f:` / `p:` tokens.
